@@ -1,8 +1,9 @@
 """Registry: unit id -> (builder, properties served); property id -> info for the evidence file."""
-from . import u01_results, u05_arith_eval, u06_arith_literal, u20_spans
+from . import u01_results, u05_arith_eval, u06_arith_literal, u20_spans, u04a_while
 
 UNITS = {
     'U1': (u01_results.build, u01_results.PROPS),
+    'U4a': (u04a_while.build, u04a_while.PROPS),
     'U5': (u05_arith_eval.build, u05_arith_eval.PROPS),
     'U6': (u06_arith_literal.build, u06_arith_literal.PROPS),
     'U20': (u20_spans.build, u20_spans.PROPS),
